@@ -144,8 +144,14 @@ def _adapter(case):
             cut_alph = [0.0, 1e-6]
             if mags:
                 cut_alph += [mags[0], mags[-1] * 2]
+                if um is not None:
+                    # a user matrix is taken as given: a cutoff EQUAL to any of its entries keeps that entry (strictly-below rule), whatever a
+                    # rounding of the cutoff to single precision would do (about half of all doubles round up)
+                    cut_alph += mags[1:]
                 if len(mags) > 1:
                     cut_alph.append(0.5 * (mags[0] + mags[1]))
+            # every cutoff as a plain Python float (what users write) and, for one of them, as the numpy scalar it was computed as
+            cut_alph = [float(c) for c in cut_alph] + ([np.float64(mags[0])] if mags else [])
             for cut in cut_alph:
                 kw = {}
                 if um is not None:
